@@ -26,6 +26,7 @@ CLASSES = {
     'tree': {'quick': 25200, 'thorough': 252000},
     'rebuild': {'quick': 5400, 'thorough': 54000},
     'counters': {'quick': 1080, 'thorough': 10800},
+    'clock': {'quick': 2400, 'thorough': 24000},
 }
 MIN_EVENTS = {'quick': {'assert:primitive': 2000, 'assert:compound': 1000, 'assert:rebuild': 200}}
 CASE_TIMEOUT = 60
@@ -348,12 +349,55 @@ def rebuild(cond):
 
 
 # ---------------------------------------------------------------- cases
+def run_clock(rng, obs):
+    """TimeLimits under a virtual clock (the time functions are replaced for the life of the condition): satisfied exactly when the time elapsed
+    since construction - or since the last reset() - is >= seconds; alone, inside And / Or / When, and for a condition rebuilt from its state"""
+    import time as _time, datetime
+    import mystic.termination as mt
+    system = rng.choice([None, True, False])
+    name = {None: 'time', True: 'perf_counter', False: 'process_time'}[system]
+    now = [rng.choice([0.0, 1000.0, 1.7e9])]
+    real = getattr(_time, name)
+    seconds = rng.choice([10, 2.5, 60.0, 0.001])
+    given = datetime.timedelta(seconds=seconds) if rng.random() < 0.2 else seconds
+    ops = []
+    setattr(_time, name, lambda: now[0])
+    try:
+        kw = {} if system is None and rng.random() < 0.5 else {'system': system}
+        c = mt.TimeLimits(given, **kw)
+        shape = rng.choice(['bare', 'bare', 'or', 'and', 'when'])
+        never, always = mt.VTR(-1.0, 0.0), mt.EvaluationLimits(0, 0)
+        tree = c if shape == 'bare' else (mt.Or(never, c) if shape == 'or' else (mt.And(always, c) if shape == 'and' else mt.When(c)))
+        since = now[0]
+        inst = make_state(rng)[0]
+        for _ in range(rng.randint(4, 12)):
+            r = rng.random()
+            if r < 0.55:
+                dt = rng.choice([0.0, seconds * 0.5, seconds * 0.999, seconds, seconds * 1.5, seconds * 40])
+                now[0] += dt; ops.append(['advance', dt])
+            elif r < 0.8:
+                c.reset(); since = now[0]; ops.append(['reset'])
+            want = (now[0] - since) >= seconds
+            got = bool(tree(inst))
+            obs.check(got == want, 'primitive:verdict', condition='TimeLimits', seconds=seconds, system=system, shape=shape, ops=ops[-6:], elapsed_since_start_or_reset=now[0] - since,
+                      observed=got, expected=want)
+            info = tree(inst, info=True)
+            obs.check((c.__doc__ in str(info)) == want, 'compound:info names exactly the satisfied primitives', condition='TimeLimits', shape=shape, info=str(info)[:120], expected=want, ops=ops[-6:])
+            obs.event('assert:primitive'); obs.event('assert:compound')
+    finally:
+        setattr(_time, name, real)
+    obs.desc = {'condition': 'TimeLimits', 'seconds': seconds, 'system': system, 'shape': shape, 'ops': ops}
+    obs.nontrivial = any(o[0] == 'reset' for o in ops) and any(o[0] == 'advance' and o[1] >= seconds for o in ops)
+
+
 def run_case(cls, idx, rng, obs):
     import warnings
     warnings.simplefilter('ignore')
     np.seterr(all='ignore')
     if cls == 'counters':
         return run_counters(rng, obs)
+    if cls == 'clock':
+        return run_clock(rng, obs)
     s, view, sdesc = make_state(rng)
     obs.desc['state'] = sdesc
     if cls == 'primitive':
